@@ -8,16 +8,17 @@
    PROVED, unbounded, for the literal code:
      C01_query_is_posterior, C01_per_variable_is_marginal, C01_answer_independent_of_order   (classic path:
        dict == pool index lemma, evidence phase, elimination loop for every order, final collection, normalize)
-     C01_greedy_path (joint and per-variable), C01_virtual_evidence, C01_prune_barren, C01_heuristics_perm,
+     C01_greedy_path (joint and per-variable), C01_virtual_evidence, C01_prune_barren, C01_prune_ancestral
+     (the ancestral step of pruning: leaf-first enumeration exists in every DAG), C01_heuristics_perm,
      and the pool-level C01_ve_any_order / C01_ve_order_independent / C01_working_factors_refines_ve_run_partial.
-   NOT proved in general: soundness of the d-separation step of [prune] and that the non-ancestors always admit
-   a leaf-first enumeration (finite-domain theorem C01_prune_dsep_3nodes_grid3 instead); that the augmented
+   NOT proved in general: soundness of the d-separation step of [prune] (finite-domain theorem
+   C01_prune_dsep_3nodes_grid3 instead); that the augmented
    network of _virtual_evidence is again a valid_bn (C01_virtual_evidence is stated on the unnormalised answer,
    which needs no such fact); the composition [query] = prune ; ve is therefore tied by the correspondence run. *)
 From Coq Require Import List Arith Lia PeanoNat Bool QArith Qcanon Permutation.
 From PV Require Import Base.Semiring Base.Ravel Base.FinSum Base.RefFactor Base.VE Base.Graph
   C01.Model C01.Spec C01.Proofs C01.ProofsElim C01.ProofsMisc C01.ProofsIdx C01.ProofsFinal C01.ProofsEvid
-  C01.ProofsQuery C01.ProofsPost C01.ProofsPrune C01.ProofsGreedy C01.ProofsVirt C01.ProofsDsep.
+  C01.ProofsQuery C01.ProofsPost C01.ProofsPrune C01.ProofsGreedy C01.ProofsVirt C01.ProofsDsep C01.ProofsTopo.
 Import ListNotations.
 Local Open Scope nat_scope.
 
@@ -233,6 +234,53 @@ Theorem C01_prune_dsep_3nodes_grid3 :
   forall b, In b all_bns3 -> forall qe, In qe all_qe3 -> prune_ok b (fst qe) (snd qe) = true.
 Proof. exact prune_sound_3nodes_grid3. Qed.
 Print Assumptions C01_prune_dsep_3nodes_grid3.
+
+
+(* ---- the ancestral step of _prune_bayesian_model: in every valid network the non-ancestors of Q u E admit a
+   leaf-first enumeration ([barren_list]: ascending number of descendants), so C01_prune_barren applies to them:
+   the network restricted to anc_of(Q u E) - the node set kept by get_ancestral_graph - with the same CPDs has the
+   same unnormalised answer. *)
+Theorem C01_prune_ancestral :
+  forall (card : var -> nat) (b : bn) (Q : list var) (ev : list (var * nat)) (a : asg),
+  valid_bn card b -> (forall e, In e ev -> snd e < card (fst e)) -> valid card a ->
+  let D := barren_list (bn_g b) (Q ++ map fst ev) in
+  unnorm card b Q ev [] a = unnorm card (drop_nodes b D) Q ev [] a /\
+  nodes (bn_g (drop_nodes b D)) = nodes (PV.C08.Model.ancestral_graph (bn_g b) (Q ++ map fst ev)).
+Proof.
+  intros card b Q ev a Hbn Hr Ha D.
+  destruct (barren_list_spec card b (Q ++ map fst ev) Hbn) as [Hbo Hp]. fold D in Hbo, Hp.
+  pose proof Hbn as [[Hnd Hed] _].
+  assert (HNA : forall x, In x D <-> In x (nodes (bn_g b)) /\ ~ In x (anc_of (bn_g b) (Q ++ map fst ev))).
+  { intros x. split.
+    - intros H. apply (Permutation_in _ Hp) in H. unfold non_ancestors in H.
+      rewrite filter_In, negb_true_iff, memn_false in H. exact H.
+    - intros H. apply (Permutation_in _ (Permutation_sym Hp)). unfold non_ancestors.
+      rewrite filter_In, negb_true_iff, memn_false. exact H. }
+  split.
+  - apply prune_barren_unnorm; try assumption.
+    + eapply Permutation_NoDup; [apply Permutation_sym; exact Hp|apply NoDup_filter; exact Hnd].
+    + intros x Hx. apply HNA in Hx. destruct Hx as [H1 H2]. split; [exact H1|].
+      assert (Hs : forall s, In s (Q ++ map fst ev) -> x <> s).
+      { intros s Hs E. subst s. apply H2. apply anc_of_spec; [split; assumption|]. exists x. split; [exact Hs|apply dpath_refl]. }
+      split; intros Hi; [apply (Hs x (in_or_app _ _ _ (or_introl Hi)))|apply (Hs x (in_or_app _ _ _ (or_intror Hi)))]; reflexivity.
+  - unfold drop_nodes, PV.C08.Model.ancestral_graph, PV.C08.Model.induced. cbn [bn_g nodes].
+    apply filter_ext_in. intros x Hx. apply eq_true_iff_eq. rewrite negb_true_iff, memv_false, memn_In, HNA.
+    split.
+    + intros H. destruct (in_dec Nat.eq_dec x (anc_of (bn_g b) (Q ++ map fst ev))) as [Hi|Hi]; [exact Hi|]. exfalso. apply H. split; assumption.
+    + intros Hi [_ Hn]. contradiction.
+Qed.
+Print Assumptions C01_prune_ancestral.
+
+(* ---- sessions: the model of query has no engine state, so an answer does not depend on the earlier requests *)
+Theorem C01_session_independent :
+  forall (card : var -> nat) (ord : forall A, list A -> list A) (idbase : nat) (b : bn)
+         (pre1 pre2 : list request) (r : request),
+  last (session card ord idbase b (pre1 ++ [r])) (inr 0) = last (session card ord idbase b (pre2 ++ [r])) (inr 0) /\
+  last (session card ord idbase b (pre1 ++ [r])) (inr 0) = run_request card ord idbase b r.
+Proof.
+  intros card ord idbase b pre1 pre2 r. unfold session. rewrite !map_app. cbn [map]. rewrite !last_last. split; reflexivity.
+Qed.
+Print Assumptions C01_session_independent.
 
 (* every ordering heuristic returns a permutation of the variables it is asked to order *)
 Theorem C01_heuristics_perm :
